@@ -487,6 +487,7 @@ func init() {
 			// "regardless of outputs of earlier runs present on disk": the outputs carry the negation of the very tag
 			// the sources are loaded under, also for a custom tag, so a later run never sees them
 			c.guard("GEN.TAG", r.ruleGoGen)
+			c.guard("DET.TESTMODE", r.ruleTestMode)
 			c.keep(func(o Obligation) bool {
 				switch o.Rule {
 				case "GEN.FILTER", "GEN.NAME":
@@ -518,6 +519,7 @@ func init() {
 			c.guard("OPT.ORDER", r.ruleOptOrder)
 			c.guard("RW.ALLFILES", func() { r.ruleAllFiles(false) })
 			c.guard("GEN.ENV", r.ruleGenEnv)
+			c.guard("DET.TESTMODE", r.ruleTestMode)
 			c.keep(func(o Obligation) bool {
 				switch o.Rule {
 				case "DET.TMP":
